@@ -163,8 +163,7 @@ V_HARNESS(h_slice_bufsize)
   }
   /* witness "sliced": the decisive outcome of this grid point is reachable - a successful slice where the buffer holds the payload,
      the refusal where it does not (a buffer too small can never be sliced into on the repaired tree) */
-  if ((unsigned) BUFSZ * 8 >= (unsigned) PAY_BITS) { if (r) V_REACH("sliced"); }
-  else { if (!r) V_REACH("sliced"); }
+  if (((unsigned) BUFSZ * 8 >= (unsigned) PAY_BITS) ? r : !r) V_REACH("sliced");   /* ONE witness assertion per tag (the runner keeps the last status of a tag) */
   V_END();
 }
 
